@@ -11,6 +11,7 @@ import Props.C02
 import Proofs.C13Binning
 import Proofs.C13Clip
 import Proofs.C13Final
+import Proofs.C13Cond
 import Props.C05
 
 namespace Taurex.C13
@@ -158,10 +159,9 @@ open Taurex.Binning in
     native bins that overlap it.  Consequently (**bin_clip_eq_partial**) if the native bins of the full run and of
     the restricted run (both ordered, both overlapping the target) have the same overlapping bins — same centres,
     widths and values — the two binned values are equal.
-    What is *not* proved: that the property's width condition (no observation bin wider than the widest mid-point
-    bin `W`, native spacing below `W/2`) makes the overlapping bins of the clipped grid (margin `W`, edge bins
-    re-derived from their neighbours) coincide with those of the full grid; that step is evaluated on the real code
-    for every generated observation (harness predicate `binned-restricted-differs`). -/
+    That the property's width condition (no observation bin wider than the widest mid-point bin `W`, native spacing
+    below `W/2`) makes the overlapping bins of the clipped grid (margin `5/4·W`, edge bins re-derived from their
+    neighbours) coincide with those of the full grid is `bin_clip_eq_property` below. -/
 theorem bin_clip_eq_partial (val : Row ℝ → ℝ) (full clipped : List (Row ℝ)) (a b : ℝ) (hab : a < b)
     (hf : full ≠ []) (hc : clipped ≠ [])
     (hordF : OrderedBins full) (hordC : OrderedBins clipped)
@@ -180,9 +180,9 @@ open Taurex.Binning in
     `geometric_spacing_ok`), the target bin `[a, b]` overlaps the data, and it does not reach (i) the two outermost
     bins of the restricted run — the only ones whose width is re-derived from one neighbour — nor (ii) any bin of the
     full grid outside the interior of the sub-range, then the two binned values are equal.
-    (The property's width condition — observation bins no wider than the widest mid-point bin `W`, clip margin `W`,
-    native spacing below `W/2` — is what makes (i) and (ii) true for every observation bin; that last geometric step
-    is evaluated on the real code for every generated observation, harness predicate `binned-restricted-differs`.) -/
+    (The property's width condition — observation bins no wider than the widest mid-point bin `W`, clip margin
+    `5/4·W`, native spacing at most `W/2` — makes (i) and (ii) true for every observation bin:
+    `bin_clip_eq_condition`, `bin_clip_eq_property`.) -/
 theorem bin_clip_eq (val : Row ℝ → ℝ) (full : List (Row ℝ)) (i m : Nat) (a b : ℝ) (hab : a < b)
     (hg : (full.map Row.c).Pairwise (· < ·)) (hm : 2 ≤ m) (him : i + m ≤ full.length)
     (hokF : MidpointSpacingOK (full.map Row.c))
@@ -241,14 +241,12 @@ theorem bin_clip_eq_uniform (val : Row ℝ → ℝ) (full : List (Row ℝ)) (i m
     (clip_uniform_overlapping_eq full i m a b d hd0 hd hm him hf1 hf2)
 
 open Taurex.Binning in
-/-- **bin_clip_eq under the property's width condition (uniform native grid)** — the complete statement for
-    uniformly spaced native grids, with no hypothesis about which bins overlap.  `full` are the native points in
-    increasing wavenumber with constant spacing `d`; the restricted run keeps the native points in the clip
-    interval `[L, U]` (in the code `L = min(obs) - W`, `U = max(obs) + W`, `W` = the widest mid-point bin of the
-    observation grid, `clipNative`).  If the native spacing does not exceed the margin (`d ≤ W`; the property asks
-    for `d < W/2`) and the observation bin `[a, b]` sticks out of the observation range by at most `W/2`
-    (`L + W/2 ≤ a`, `b ≤ U - W/2`: its centre lies in the range and it is no wider than `W`), then binning the
-    restricted run equals binning the full run. -/
+/-- **bin_clip_eq on a uniform native grid, interval form** — with no hypothesis about which bins overlap.
+    `full` are the native points in increasing wavenumber with constant spacing `d`; the restricted run keeps the
+    native points in a clip interval `[L, U]`.  If the target `[a, b]` stays `W/2` inside the interval
+    (`L + W/2 ≤ a`, `b ≤ U - W/2`) for some `W ≥ d`, then binning the restricted run equals binning the full run.
+    For the code (`L = min(obs) - 5/4·W'`, `U = max(obs) + 5/4·W'`, `W'` the widest requested bin, a requested bin
+    reaching at most `W'/2` beyond the outermost centres) take `W = 3/2·W'`: `bin_clip_eq_uniform_property`. -/
 theorem bin_clip_eq_uniform_condition (val : Row ℝ → ℝ) (full : List (Row ℝ)) (d W L U a b : ℝ)
     (hd0 : 0 < d) (hd : ∀ j, j + 1 < (full.map Row.c).length → spacing (full.map Row.c) j = d)
     (hdW : d ≤ W) (hab : a < b) (ha : L + W / 2 ≤ a) (hb : b ≤ U - W / 2)
@@ -274,7 +272,7 @@ theorem bin_clip_eq_uniform_condition (val : Row ℝ → ℝ) (full : List (Row 
     have := hhi r0 hr0
     unfold Row.lo; rw [hw, hc]; linarith
 
--- non-vacuity of `bin_clip_eq_uniform_condition`: five native points 1..5 (d = 1), margin W = 1, clip interval [2, 4],
+-- non-vacuity of `bin_clip_eq_uniform_condition`: five native points 1..5 (d = 1), W = 1, clip interval [2, 4],
 -- target [2.5, 3.5]: constant spacing, d ≤ W, the target sticks out of [3, 3] by W/2, and three points survive the clip
 open Taurex.Binning in
 example :
@@ -288,5 +286,250 @@ example :
     have : j = 0 ∨ j = 1 ∨ j = 2 ∨ j = 3 := by omega
     rcases this with rfl | rfl | rfl | rfl <;> norm_num [full, spacing]
   · norm_num [full, inside, List.filter]
+
+open Taurex.Binning in
+/-- **bin_clip_eq on a uniform native grid, for the code's clip**: constant native spacing `d ≤ 3/2·W` (`W` the
+    widest requested bin; the property asks for `d < W/2`), requested bin `[a, b]` reaching at most `W/2` beyond the
+    outermost requested centres, the restricted run = the rows kept by `clip_native_to_wngrid` (margin `5/4·W`):
+    binning the restricted run equals binning the full run. -/
+theorem bin_clip_eq_uniform_property (val : Row ℝ → ℝ) (full : List (Row ℝ)) (obs : List ℝ) (d a b : ℝ)
+    (hd0 : 0 < d) (hd : ∀ j, j + 1 < (full.map Row.c).length → spacing (full.map Row.c) j = d)
+    (hdW : d ≤ 3 / 2 * widestBin obs) (hab : a < b)
+    (ha : minL obs - widestBin obs / 2 ≤ a) (hb : b ≤ maxL obs + widestBin obs / 2)
+    (hkept : 2 ≤ (clipNative (full.map Row.c) obs).length)
+    (hposF : 0 < sumL ((nativeBins false full).map (overlap a b)))
+    (hposC : 0 < sumL ((nativeBins false (full.filter (fun r => inClip obs r.c))).map (overlap a b))) :
+    fluxBinVal val (nativeBins false full) a b =
+      fluxBinVal val (nativeBins false (full.filter (fun r => inClip obs r.c))) a b := by
+  have e : full.filter (fun r => inClip obs r.c) =
+      full.filter (inside (minL obs - clipMargin obs) (maxL obs + clipMargin obs)) := rfl
+  rw [e] at hposC ⊢
+  rw [← filter_inside_clipNative, List.length_map] at hkept
+  refine bin_clip_eq_uniform_condition val full d (3 / 2 * widestBin obs) _ _ a b hd0 hd hdW hab ?_ ?_ hkept hposF hposC
+  · unfold clipMargin; linarith
+  · unfold clipMargin; linarith
+
+open Taurex.Binning in
+/-- **bin_clip_eq, interval form (any native grid)** — the general geometric statement, with no hypothesis about
+    which bins overlap.  `full` are the native points in strictly increasing wavenumber (linear, logarithmic,
+    constant-R or arbitrary) whose mid-point bins are ordered: `MidpointSpacingOK` for the native grid and for the
+    kept points (the end clauses of that condition look at one neighbour only, so a sub-range does not inherit it;
+    `bin_clip_eq_condition_ratio` replaces both by one hereditary condition).  The restricted run keeps the native
+    points of a clip interval `[L, U]`.  If every native spacing is at most `d` and the target `[a, b]` stays
+    `3/2·d` inside the interval (`L + 3/2·d ≤ a`, `b ≤ U - 3/2·d`) and overlaps the data, then binning the
+    restricted run equals binning the full run.
+    Where the clip cuts nothing at an end, the outermost restricted bin *is* the outermost full bin; where it cuts,
+    the re-derived edge bin (centre less than one spacing inside `[L, U]`, width one spacing) and its full-grid
+    counterpart both end within `3/2·d` of the interval's end.
+    Corollaries: `bin_clip_eq_property` (the code: margin `5/4·W`, spacing `≤ W/2`), `bin_clip_eq_pinned` (the
+    pre-fix margin `W` needs spacing `≤ W/3`; `bin_clip_condition_sharp`: no weaker bound would do). -/
+theorem bin_clip_eq_condition (val : Row ℝ → ℝ) (full : List (Row ℝ)) (d L U a b : ℝ)
+    (hg : (full.map Row.c).Pairwise (· < ·))
+    (hokF : MidpointSpacingOK (full.map Row.c))
+    (hokC : MidpointSpacingOK ((full.filter (inside L U)).map Row.c))
+    (hd : ∀ j, j + 1 < (full.map Row.c).length → spacing (full.map Row.c) j ≤ d)
+    (hab : a < b) (ha : L + 3 / 2 * d ≤ a) (hb : b ≤ U - 3 / 2 * d)
+    (hkept : 2 ≤ (full.filter (inside L U)).length)
+    (hposF : 0 < sumL ((nativeBins false full).map (overlap a b))) :
+    fluxBinVal val (nativeBins false full) a b = fluxBinVal val (nativeBins false (full.filter (inside L U))) a b := by
+  obtain ⟨i, m, him, hfil, hlo, hhi⟩ := filter_interval_sorted L U full hg
+  have hm : 2 ≤ m := by
+    rw [hfil, length_drop_take full i m him] at hkept; exact hkept
+  rw [hfil] at hokC ⊢
+  have hsame := clip_condition_overlapping_eq full i m d L U a b hg hm him hd ha hb hlo hhi
+  have hposC : 0 < sumL ((nativeBins false ((full.drop i).take m)).map (overlap a b)) := by
+    rw [sum_overlap_overlapping, ← hsame, ← sum_overlap_overlapping]; exact hposF
+  have hlenF : 2 ≤ full.length := by omega
+  have hlenC : ((full.drop i).take m).length = m := length_drop_take full i m him
+  have hgC : (((full.drop i).take m).map Row.c).Pairwise (· < ·) := by
+    rw [map_drop_take]; exact sub_increasing _ i m hg
+  obtain ⟨oF, wF⟩ := Taurex.C05.midpoint_bins_ordered full hlenF hg hokF
+  obtain ⟨oC, wC⟩ := Taurex.C05.midpoint_bins_ordered ((full.drop i).take m) (by omega) hgC hokC
+  have neF : nativeBins false full ≠ [] := by
+    intro h; have := length_nativeBins_false full (by omega); rw [h] at this; simp at this; omega
+  have neC : nativeBins false ((full.drop i).take m) ≠ [] := by
+    intro h; have := length_nativeBins_false ((full.drop i).take m) (by omega); rw [h] at this; simp at this; omega
+  exact bin_clip_eq_partial val _ _ a b hab neF neC oF oC wF wC hposF hposC hsame
+
+open Taurex.Binning in
+/-- the same with one hereditary hypothesis on the native grid instead of the two `MidpointSpacingOK`:
+    neighbouring spacings within a factor 4 of each other (`RatioOK`; linear grids, and logarithmic / constant-R
+    grids with step ratio `≤ 4`: `geometric_ratio_ok`) -/
+theorem bin_clip_eq_condition_ratio (val : Row ℝ → ℝ) (full : List (Row ℝ)) (d L U a b : ℝ)
+    (hg : (full.map Row.c).Pairwise (· < ·)) (hr : RatioOK (full.map Row.c))
+    (hd : ∀ j, j + 1 < (full.map Row.c).length → spacing (full.map Row.c) j ≤ d)
+    (hab : a < b) (ha : L + 3 / 2 * d ≤ a) (hb : b ≤ U - 3 / 2 * d)
+    (hkept : 2 ≤ (full.filter (inside L U)).length)
+    (hposF : 0 < sumL ((nativeBins false full).map (overlap a b))) :
+    fluxBinVal val (nativeBins false full) a b = fluxBinVal val (nativeBins false (full.filter (inside L U))) a b := by
+  refine bin_clip_eq_condition val full d L U a b hg (ratio_spacing_ok _ hg hr) ?_ hd hab ha hb hkept hposF
+  obtain ⟨i, m, him, hfil, _, _⟩ := filter_interval_sorted L U full hg
+  rw [hfil, map_drop_take]
+  exact ratio_spacing_ok _ (sub_increasing _ i m hg) (ratio_sub _ i m (by rw [List.length_map]; exact him) hr)
+
+/-- the rows whose centre survives the code's clip (`L = min(obs) - 5/4·W`, `U = max(obs) + 5/4·W`) have the
+    centres `clipNative` (= `clip_native_to_wngrid`, `Props/C13Src.lean:src_clip_native`) returns -/
+theorem clip_rows_eq_clipNative (full : List (Binning.Row ℝ)) (obs : List ℝ) :
+    (full.filter (fun r => inClip obs r.c)).map Binning.Row.c = clipNative (full.map Binning.Row.c) obs :=
+  filter_inside_clipNative full obs
+
+/-- the same for the pre-fix clip (margin `W`) -/
+theorem clip_rows_eq_clipNativePinned (full : List (Binning.Row ℝ)) (obs : List ℝ) :
+    (full.filter (fun r => inClipPinned obs r.c)).map Binning.Row.c =
+      clipNativePinned (full.map Binning.Row.c) obs :=
+  filter_inside_clipNativePinned full obs
+
+open Taurex.Binning in
+/-- **bin_clip_eq — the property's statement, for the code as it is**: "binning the restricted result to the
+    observation equals binning the full result whenever no observation bin is wider than the widest bin implied by
+    the mid-points between neighbouring bin centres and the native grid is finer than half that width".
+    `obs` are the requested bin centres, `W = widestBin obs` the widest mid-point bin; `full` the native points in
+    strictly increasing wavenumber with ordered mid-point bins (native and kept grid), **every native spacing
+    `≤ W/2`**; the restricted run holds the rows kept by `clip_native_to_wngrid` (`clipNative`: margin `5/4·W`,
+    `clip_rows_eq_clipNative`); the observation bin `[a, b]` reaches at most `W/2` beyond the smallest / largest
+    requested centre (its centre is one of the requested centres and it is no wider than `W`) and overlaps the data.
+    Then the two binned values are equal. -/
+theorem bin_clip_eq_property (val : Row ℝ → ℝ) (full : List (Row ℝ)) (obs : List ℝ) (a b : ℝ)
+    (hg : (full.map Row.c).Pairwise (· < ·))
+    (hokF : MidpointSpacingOK (full.map Row.c))
+    (hokC : MidpointSpacingOK (clipNative (full.map Row.c) obs))
+    (hsp : ∀ j, j + 1 < (full.map Row.c).length → spacing (full.map Row.c) j ≤ widestBin obs / 2)
+    (hab : a < b) (ha : minL obs - widestBin obs / 2 ≤ a) (hb : b ≤ maxL obs + widestBin obs / 2)
+    (hkept : 2 ≤ (clipNative (full.map Row.c) obs).length)
+    (hposF : 0 < sumL ((nativeBins false full).map (overlap a b))) :
+    fluxBinVal val (nativeBins false full) a b =
+      fluxBinVal val (nativeBins false (full.filter (fun r => inClip obs r.c))) a b := by
+  have e : full.filter (fun r => inClip obs r.c) =
+      full.filter (inside (minL obs - clipMargin obs) (maxL obs + clipMargin obs)) := rfl
+  rw [e]
+  rw [← filter_inside_clipNative] at hokC hkept
+  rw [List.length_map] at hkept
+  refine bin_clip_eq_condition val full (widestBin obs / 2) _ _ a b hg hokF hokC hsp hab ?_ ?_ hkept hposF
+  · unfold clipMargin; linarith
+  · unfold clipMargin; linarith
+
+open Taurex.Binning in
+/-- the property's statement with the hereditary spacing condition `RatioOK` (linear, logarithmic and constant-R
+    native grids with step ratio `≤ 4`) instead of the two `MidpointSpacingOK` -/
+theorem bin_clip_eq_property_ratio (val : Row ℝ → ℝ) (full : List (Row ℝ)) (obs : List ℝ) (a b : ℝ)
+    (hg : (full.map Row.c).Pairwise (· < ·)) (hr : RatioOK (full.map Row.c))
+    (hsp : ∀ j, j + 1 < (full.map Row.c).length → spacing (full.map Row.c) j ≤ widestBin obs / 2)
+    (hab : a < b) (ha : minL obs - widestBin obs / 2 ≤ a) (hb : b ≤ maxL obs + widestBin obs / 2)
+    (hkept : 2 ≤ (clipNative (full.map Row.c) obs).length)
+    (hposF : 0 < sumL ((nativeBins false full).map (overlap a b))) :
+    fluxBinVal val (nativeBins false full) a b =
+      fluxBinVal val (nativeBins false (full.filter (fun r => inClip obs r.c))) a b := by
+  have e : full.filter (fun r => inClip obs r.c) =
+      full.filter (inside (minL obs - clipMargin obs) (maxL obs + clipMargin obs)) := rfl
+  rw [e]
+  rw [← filter_inside_clipNative, List.length_map] at hkept
+  refine bin_clip_eq_condition_ratio val full (widestBin obs / 2) _ _ a b hg hr hsp hab ?_ ?_ hkept hposF
+  · unfold clipMargin; linarith
+  · unfold clipMargin; linarith
+
+open Taurex.Binning in
+/-- **bin_clip_eq for the pre-fix clip** (margin = the widest bin `W`, `clipNativePinned`): the statement needs
+    every native spacing `≤ W/3` — a third, not the property's half (`bin_clip_condition_sharp`: spacing `7/20·W`
+    already breaks it).  This is the defect repaired in /repo by the margin `5/4·W`. -/
+theorem bin_clip_eq_pinned (val : Row ℝ → ℝ) (full : List (Row ℝ)) (obs : List ℝ) (a b : ℝ)
+    (hg : (full.map Row.c).Pairwise (· < ·))
+    (hokF : MidpointSpacingOK (full.map Row.c))
+    (hokC : MidpointSpacingOK (clipNativePinned (full.map Row.c) obs))
+    (hsp : ∀ j, j + 1 < (full.map Row.c).length → spacing (full.map Row.c) j ≤ widestBin obs / 3)
+    (hab : a < b) (ha : minL obs - widestBin obs / 2 ≤ a) (hb : b ≤ maxL obs + widestBin obs / 2)
+    (hkept : 2 ≤ (clipNativePinned (full.map Row.c) obs).length)
+    (hposF : 0 < sumL ((nativeBins false full).map (overlap a b))) :
+    fluxBinVal val (nativeBins false full) a b =
+      fluxBinVal val (nativeBins false (full.filter (fun r => inClipPinned obs r.c))) a b := by
+  have e : full.filter (fun r => inClipPinned obs r.c) =
+      full.filter (inside (minL obs - clipMarginPinned obs) (maxL obs + clipMarginPinned obs)) := rfl
+  rw [e]
+  rw [← filter_inside_clipNativePinned] at hokC hkept
+  rw [List.length_map] at hkept
+  refine bin_clip_eq_condition val full (widestBin obs / 3) _ _ a b hg hokF hokC hsp hab ?_ ?_ hkept hposF
+  · unfold clipMarginPinned; linarith
+  · unfold clipMarginPinned; linarith
+
+-- non-vacuity of `bin_clip_eq_condition` / `…_ratio`: a log-spaced native grid 1024·(5/4)^k, k = 0…5 (spacings
+-- 256 … 625 = d), clip interval [1100, 4975]: the clip cuts the first point only, so the first restricted bin is
+-- re-derived while the last one is the last full bin; target [2100, 3900] (1100 + 937.5 ≤ 2100, 3900 ≤ 4975 - 937.5)
+open Taurex.Binning in
+example :
+    let full : List (Row ℝ) := [⟨1024, 0, 10, 0⟩, ⟨1280, 0, 20, 0⟩, ⟨1600, 0, 30, 0⟩, ⟨2000, 0, 40, 0⟩,
+      ⟨2500, 0, 50, 0⟩, ⟨3125, 0, 60, 0⟩]
+    (full.map Row.c).Pairwise (· < ·) ∧ RatioOK (full.map Row.c) ∧
+    (∀ j, j + 1 < (full.map Row.c).length → spacing (full.map Row.c) j ≤ (625 : ℝ)) ∧
+    (2100 : ℝ) < 3900 ∧ (1100 : ℝ) + 3 / 2 * 625 ≤ 2100 ∧ (3900 : ℝ) ≤ 4975 - 3 / 2 * 625 ∧
+    (full.filter (inside 1100 4975)).map Row.c = [1280, 1600, 2000, 2500, 3125] ∧
+    0 < sumL ((nativeBins false full).map (overlap 2100 3900)) := by
+  intro full
+  have hg : (full.map Row.c).Pairwise (· < ·) := by norm_num [full]
+  refine ⟨hg, ?_, ?_, by norm_num, by norm_num, by norm_num, by norm_num [full, inside, List.filter], ?_⟩
+  · exact geometric_ratio_ok _ (5 / 4) (by norm_num [full]) (by norm_num) (by norm_num) (by
+      intro j hj
+      simp only [full, List.map_cons, List.map_nil, List.length_cons, List.length_nil] at hj
+      have : j = 0 ∨ j = 1 ∨ j = 2 ∨ j = 3 ∨ j = 4 := by omega
+      rcases this with rfl | rfl | rfl | rfl | rfl <;> norm_num [full])
+  · intro j hj
+    simp only [full, List.map_cons, List.map_nil, List.length_cons, List.length_nil] at hj
+    have : j = 0 ∨ j = 1 ∨ j = 2 ∨ j = 3 ∨ j = 4 := by omega
+    rcases this with rfl | rfl | rfl | rfl | rfl <;> norm_num [full, spacing]
+  · rw [nativeBins_false_sorted full hg]
+    norm_num [full, computeBinEdges, midEdges, diffs, absv, withWidths, overlap, mn, mx, sumL, Row.lo, Row.hi]
+
+-- non-vacuity of `bin_clip_eq_property` / `…_ratio`: the same native grid, observation centres 2700 and 3950
+-- (widest mid-point bin W = 1250 = 2·625, so every native spacing is ≤ W/2; margin 5/4·W = 1562.5, clip interval
+-- [1137.5, 5512.5]: drops the native point 1024), observation bin [2075, 3325] = 2700 ± W/2
+open Taurex.Binning in
+example :
+    let full : List (Row ℝ) := [⟨1024, 0, 10, 0⟩, ⟨1280, 0, 20, 0⟩, ⟨1600, 0, 30, 0⟩, ⟨2000, 0, 40, 0⟩,
+      ⟨2500, 0, 50, 0⟩, ⟨3125, 0, 60, 0⟩]
+    let obs : List ℝ := [2700, 3950]
+    widestBin obs = 1250 ∧ minL obs = 2700 ∧ maxL obs = 3950 ∧
+    (∀ j, j + 1 < (full.map Row.c).length → spacing (full.map Row.c) j ≤ widestBin obs / 2) ∧
+    minL obs - widestBin obs / 2 ≤ 2075 ∧ (3325 : ℝ) ≤ maxL obs + widestBin obs / 2 ∧
+    clipNative (full.map Row.c) obs = [1280, 1600, 2000, 2500, 3125] := by
+  intro full obs
+  have hW : widestBin obs = 1250 := by
+    norm_num [obs, widestBin, maxL, computeBinEdges, midEdges, diffs, absv]
+  have hmin : minL obs = 2700 := by norm_num [obs, minL]
+  have hmax : maxL obs = 3950 := by norm_num [obs, maxL]
+  refine ⟨hW, hmin, hmax, ?_, by rw [hW, hmin]; norm_num, by rw [hW, hmax]; norm_num, ?_⟩
+  · intro j hj
+    rw [hW]
+    simp only [full, List.map_cons, List.map_nil, List.length_cons, List.length_nil] at hj
+    have : j = 0 ∨ j = 1 ∨ j = 2 ∨ j = 3 ∨ j = 4 := by omega
+    rcases this with rfl | rfl | rfl | rfl | rfl <;> norm_num [full, spacing]
+  · unfold clipNative inClip clipMargin
+    rw [hW, hmin, hmax]
+    norm_num [full, List.filter]
+
+/-- **the pre-fix margin `W` is not enough for the property's condition** (exact counter-example over ℚ; the
+    regression statement of the defect repaired by the margin `5/4·W`).  Observation grid `[30, 50]`: widest
+    mid-point bin `W = 20`, pre-fix clip interval `[10, 70]` (`clipNativePinned`); native grid 2.9, 9.9, 16.9, 23.7,
+    30.7, … with spacings 7, 7, 6.8, 7, 7, … — all `≤ 7 = 7/20·W < W/2` (the property's condition holds) but above
+    `W/3`; observation bin `[20, 40]` (centre 30 = min(obs), width `W`).  The pre-fix clip drops 2.9 and 9.9; the first
+    restricted bin is `16.9 ± 3.4` and reaches to 20.3 into the target while the full run has `16.9 ± 3.45` there, so
+    the overlap weights, and the binned values, differ (1967/401 against 491/100; the pre-fix `clip_native_to_wngrid`
+    + `FluxBinner` gave the same two values).  With the code's margin `5/4·W = 25` the clip interval is `[5, 75]`,
+    the point 9.9 is kept, and the two binned values agree. -/
+theorem bin_clip_condition_sharp :
+    let full : List (Binning.Row Rat) := [⟨29/10, 0, 1, 0⟩, ⟨99/10, 0, 2, 0⟩, ⟨169/10, 0, 3, 0⟩, ⟨237/10, 0, 5, 0⟩,
+      ⟨307/10, 0, 4, 0⟩, ⟨377/10, 0, 6, 0⟩, ⟨447/10, 0, 2, 0⟩, ⟨517/10, 0, 1, 0⟩, ⟨587/10, 0, 3, 0⟩, ⟨657/10, 0, 2, 0⟩]
+    let obs : List Rat := [30, 50]
+    let W := widestBin obs
+    let clippedPinned := full.filter (fun r => inClipPinned obs r.c)
+    let clipped := full.filter (fun r => inClip obs r.c)
+    W = 20 ∧ clipMarginPinned obs = 20 ∧ clipMargin obs = 25 ∧ minL obs - W / 2 = 20 ∧ 40 ≤ maxL obs + W / 2 ∧
+    (Binning.diffs (full.map Binning.Row.c)).all (fun d => decide (0 < d) && decide (d ≤ 7 * W / 20)) = true ∧
+    clippedPinned.map Binning.Row.c = clipNativePinned (full.map Binning.Row.c) obs ∧
+    clipped.map Binning.Row.c = clipNative (full.map Binning.Row.c) obs ∧
+    Binning.fluxBinVal Binning.Row.s (Binning.nativeBins false full) 20 40 = 1967 / 401 ∧
+    Binning.fluxBinVal Binning.Row.s (Binning.nativeBins false clippedPinned) 20 40 = 491 / 100 ∧
+    Binning.fluxBinVal Binning.Row.s (Binning.nativeBins false full) 20 40 ≠
+      Binning.fluxBinVal Binning.Row.s (Binning.nativeBins false clippedPinned) 20 40 ∧
+    Binning.fluxBinVal Binning.Row.s (Binning.nativeBins false clipped) 20 40 =
+      Binning.fluxBinVal Binning.Row.s (Binning.nativeBins false full) 20 40 := by
+  decide +kernel
 
 end Taurex.C13
